@@ -817,11 +817,76 @@ def _const_text(b, o, depth=0):
     if len(defs) != 1:
         return None
     rv = defs[0]
-    if rv["k"] == "use":
+    if rv["k"] in ("use", "cast"):
         return _const_text(b, rv["op"], depth + 1)
     if rv["k"] == "ref":
         return _const_text(b, {"k": "copy", "place": rv["place"]}, depth + 1)
     return None
+
+
+def _is_direction_const(t):
+    import re as _re
+    if t is None:
+        return False
+    words = _re.findall(r'"([^"]*)"', t)
+    return any(w.upper() in ("ASC", "DESC") for w in words)
+
+
+def _direction_body(r, lib, cg, b, root_is_param, label, depth):
+    """Judge the comparisons with ASC / DESC in `b`; where the whole remainder is handed to another local function
+    (a FromStr impl reached through parse, a helper), judge them there with its parameter as the remainder."""
+    pr = Prov(b, WHOLE_TEXT)
+    eqs = []
+    consts = {}
+    for c in b.calls:
+        if len(c.args) != 2:
+            continue
+        for ai, a in enumerate(c.args):
+            t = _const_text(b, a)
+            if _is_direction_const(t):
+                eqs.append((c, 1 - ai))
+                consts[(c.bb, 1 - ai)] = t
+
+    def whole(at):
+        calls = sorted({b.call_at[a[1]].name or "?" for a in at if a[0] == "call"})
+        args = sorted({a for a in at if a[0] == "arg"})
+        if root_is_param:
+            return (not calls and args and all(a[1] == 1 for a in args)), calls + [str(a) for a in args if a[1] != 1]
+        return (len(calls) == 1 and calls[0].endswith("read_to_eof") and not args), calls + [str(a) for a in args]
+    ok_blocks = {bb for bb, idx, place, rv, _ in b.assignments()
+                 if rv["k"] == "agg" and rv.get("variant_name") == "Ok" and place["l"] in common.ret_locals(b)}
+    any_found = False
+    for c, oi in eqs:
+        any_found = True
+        ctext = consts.get((c.bb, oi), "cmp")[:24]
+        if c.target is not None and not (set(b.reachable(c.target)) & ok_blocks):
+            # a comparison made after the option has already been rejected (it only words the error message)
+            r.ok("%s#%s@bb%d" % (label, ctext, c.bb), "no accepting return is reachable from this comparison",
+                 c.where(), nontrivial=False)
+            continue
+        good, through = whole(pr.call_arg_origins(c, oi))
+        key = "%s#%s" % (label, ctext)
+        if good:
+            r.ok(key, "compares the whole (trimmed, case-folded) remainder", c.where())
+        else:
+            r.bad(key, "the text compared with the direction keyword is not the whole remainder of the option: it "
+                  "comes through %s - what else follows the expression is never looked at, so an invalid option is "
+                  "accepted" % through, c.where())
+    if depth < 3:
+        for c in b.calls:
+            tgt = cg.forwarded(c) or (c.resolved if not c.is_dyn() else None)
+            if not tgt or tgt not in lib.bodies or tgt == b.name or tgt.endswith("read_to_eof") \
+                    or tgt.endswith("read_getter") or "reader::" in tgt:
+                continue
+            for ai in range(len(c.args)):
+                good, _ = whole(pr.call_arg_origins(c, ai))
+                if good:
+                    sub = lib.bodies[tgt]
+                    # the callee sees the remainder as its parameter ai+1; only the first parameter is followed
+                    if ai == 0 or sub.arg_count == 1:
+                        if _direction_body(r, lib, cg, sub, True, label + ">" + tgt.rsplit("::", 2)[-2][:20], depth + 1):
+                            any_found = True
+    return any_found
 
 
 def direction_whole(rep, lib):
@@ -835,38 +900,13 @@ def direction_whole(rep, lib):
     if b is None:
         r.missing("Sorter::from_str")
         return
-    pr = Prov(b, WHOLE_TEXT)
-    eqs = []
-    consts = {}
-    for c in b.calls:
-        if len(c.args) != 2:
-            continue
-        for ai, a in enumerate(c.args):
-            t = _const_text(b, a)
-            if t is not None and t.strip('"').upper() in ("ASC", "DESC"):
-                eqs.append((c, 1 - ai))
-                consts[(c.bb, 1 - ai)] = t
-    if not eqs:
-        r.bad("from_str#compare", "no comparison with the constants ASC / DESC found (unrecognised idiom)", b.where())
+    from lib.callgraph import CallGraph
+    cg = CallGraph(lib)
+    found = _direction_body(r, lib, cg, b, False, "from_str", 0)
+    if not found:
+        r.bad("from_str#compare", "no comparison with the constants ASC / DESC found on the way of the remainder "
+              "(unrecognised idiom)", b.where())
         return
-    ok_blocks = {bb for bb, idx, place, rv, _ in b.assignments()
-                 if rv["k"] == "agg" and rv.get("variant_name") == "Ok" and place["l"] in common.ret_locals(b)}
-    for c, oi in eqs:
-        if c.target is not None and not (set(b.reachable(c.target)) & ok_blocks):
-            # a comparison made after the option has already been rejected (it only words the error message)
-            r.ok("from_str#%s@bb%d" % (consts.get((c.bb, oi), "cmp"), c.bb),
-                 "no accepting return is reachable from this comparison", c.where(), nontrivial=False)
-            continue
-        at = pr.call_arg_origins(c, oi)
-        calls = sorted({b.call_at[a[1]].name or "?" for a in at if a[0] == "call"})
-        other = sorted({str(a) for a in at if a[0] in ("arg",)})
-        key = "from_str#%s" % consts.get((c.bb, oi), "cmp")
-        if len(calls) == 1 and calls[0].endswith("read_to_eof") and not other:
-            r.ok(key, "compares the whole (trimmed, upper-cased) remainder", c.where())
-        else:
-            r.bad(key, "the text compared with the direction keyword is not the whole remainder of the option: it "
-                  "comes through %s - what else follows the expression is never looked at, so an invalid option is "
-                  "accepted" % (calls + other), c.where())
     rb = lib.bodies.get("sorters::read_to_eof")
     if rb is None:
         r.missing("sorters::read_to_eof")
